@@ -715,7 +715,9 @@ class _MissingImportFinder:
         type_params = getattr(node, "type_params", None)
         # The type parameters of 'class A[T: Bound](Base[T])' are visible to
         # the bases, the keywords and the body, but not outside the class.
-        with (self._NewScopeCtx() if type_params else contextlib.nullcontext()):
+        # (Such a scope inside a class body sees the class-level names.)
+        with (self._NewScopeCtx(include_class_scopes=True) if type_params
+              else contextlib.nullcontext()):
             self._visit_type_params(type_params)
             self.visit(node.bases)
             # The class's name is only visible to others (not to the body to the
@@ -755,8 +757,9 @@ class _MissingImportFinder:
 
     if sys.version_info >= (3, 12):
         def visit_TypeAlias(self, node):
-            # 'type X[T: Bound] = value'
-            with self._NewScopeCtx():
+            # 'type X[T: Bound] = value'; inside a class body the value and
+            # the bounds see the class-level names.
+            with self._NewScopeCtx(include_class_scopes=True):
                 self._visit_type_params(node.type_params)
                 self.visit(node.value)
             self.visit(node.name)
